@@ -379,7 +379,11 @@ func (c *FnCtx) fieldAddr(fr *frame, st *State, guard string, x *ssa.FieldAddr) 
 	case Term:
 		ref = b.S
 	case *Loc:
-		c.fail("FieldAddr through element/field address not supported (%s in %s)", x, funcKey(fr.fn))
+		// &elems[i].f : field of a by-value struct element
+		if _, ok := b.T.Underlying().(*types.Struct); !ok {
+			c.fail("FieldAddr through element/field address not supported (%s in %s)", x, funcKey(fr.fn))
+		}
+		return &Loc{Kind: "sub", Parent: b, Field: x.Field, T: ft, Region: b.Region, Ref: b.Ref}
 	}
 	c.nilCheck(guard, ref, x.Name())
 	if _, ok := isWrapper(stT); ok && x.Field == 0 {
